@@ -13,7 +13,7 @@ pub struct C10;
 
 fn cfg(tier: Tier) -> ProgCfg {
     ProgCfg {
-        mix: OpMix { write: 12, remove: 5, remove_fully: 1, idx_insert: 2, idx_delete: 1, link_to: 2, damage_content: 2, remove_hash: 1, switch_cache: 1, ..OpMix::NONE },
+        mix: OpMix { write: 12, remove: 5, remove_fully: 1, idx_insert: 2, idx_delete: 1, link_to: 2, damage_content: 2, damage_bucket: 1, remove_hash: 1, switch_cache: 1, ..OpMix::NONE },
         wmix: WriteMix { bad_decls: false, meta: true, by_hash: false, rich_matching: false, interfere: false },
         sizes: SizeMix::Small,
         keys: (1, 12),
@@ -159,6 +159,20 @@ impl Engine for C10 {
                 let steps = vec![Step { op: Op::Write(WriteSpec::simple(Some(1), 1)), fl: Fl::Async }, first, Step { op: Op::DamageContent { addr: a, dmg: dmg.clone() }, fl: Fl::Sync }];
                 out.push(Program { keys, blobs, steps });
             }
+        }
+        // bucket files that are symbolic links (a symlink farm of a cache): lookups follow them,
+        // so does the listing
+        for variant in 0..3usize {
+            let keys = vec!["farmed".to_string(), "plain".to_string(), "farmed-too".to_string()];
+            let blobs = vec![Blob::new(5, 1), Blob::new(9, 2)];
+            let w = |k: usize, b: usize, fl: Fl| Step { op: Op::Write(WriteSpec::simple(Some(k), b)), fl };
+            let farm = |k: usize| Step { op: Op::DamageBucket { key: k, dmg: BDamage::BecomeSymlink }, fl: Fl::Sync };
+            let steps = match variant {
+                0 => vec![w(0, 0, Fl::Sync), w(1, 1, Fl::Async), w(2, 1, Fl::Sync), farm(0), farm(2)],
+                1 => vec![w(0, 0, Fl::Async), farm(0), w(0, 1, Fl::Sync), w(1, 1, Fl::Sync)],
+                _ => vec![w(0, 0, Fl::Sync), w(1, 0, Fl::Sync), farm(0), farm(1), Step { op: Op::Remove { key: 0 }, fl: Fl::Async }, w(2, 1, Fl::Async), farm(2)],
+            };
+            out.push(Program { keys, blobs, steps });
         }
         // records whose integrity text cannot address content (planted; no well-formed call
         // writes them): the listing must still agree with lookups, whatever both make of them
